@@ -381,5 +381,27 @@ pub fn gen_replay(seed: u64, focus_arg: &str) -> Replay {
         }
         steps.push(st);
     }
+    // many sibling tables under one parent (17..40 level-1 tables under one level-2 table, or
+    // level-2 tables under one level-3 table), emptied again and cleaned up in one call: batching
+    // and bookkeeping per parent table shows only beyond a handful of children
+    let kernel_half = matches!(config.view, View::Recursive { r } if r >= 256);
+    if !kernel_half && g.rng.chance(if focus == "C10" { 4 } else { 2 }) {
+        let n = 17 + g.rng.below(24);
+        let (stride, span) = if g.rng.chance(70) { (1u64 << 21, 1u64 << 30) } else { (1u64 << 30, 1u64 << 39) };
+        let anchor = g.page(Size::K4);
+        let base = anchor & !(span - 1);
+        let first = g.rng.below(512 - n);
+        let pages: Vec<u64> = (0..n).map(|i| base + (first + i) * stride + 4096 * g.rng.below(4)).collect();
+        for &page in &pages {
+            let frame = g.frame(Size::K4, false);
+            let flags = g.leaf_flags(Size::K4, true);
+            g.frames.push((frame, Size::K4));
+            steps.push(Step::Map { size: Size::K4, page, frame, flags, pflags: None, fail: 0 });
+        }
+        for &page in &pages {
+            steps.push(Step::Unmap { size: Size::K4, page });
+        }
+        steps.push(if g.rng.chance(50) { Step::CleanUp } else { Step::CleanUpRange { start: base + first * stride, end: base + (first + n) * stride - 4096 } });
+    }
     Replay { property: focus.to_string(), simulator: "physim".to_string(), seed, config, steps, violation: None, minimised_from_steps: None }
 }
